@@ -83,7 +83,9 @@ def termPot (H W : Nat) : List Str → TermPotF
 /-- fuel bound of the list-side search -/
 def termPotL (H W : Nat) : List Str → Nat → Nat
   | [], g => termR H W g + g + 2
-  | _ :: ts, g => (W + 3) + max (termPot H W ts H (g + 1)) (termPotL H W ts (g + 1))
+  | t :: ts, g =>
+    -- a name or a condition is handed to the dict-side search as it is (fix C06-f); an index step is walked here
+    max (1 + termPot H W (t :: ts) H g) ((W + 3) + max (termPot H W ts H (g + 1)) (termPotL H W ts (g + 1)))
 
 /-- **the fuel that is enough** for the string `s` on the tree `t`: the dict-side and the list-side
 bound of its tokens (after a leading `?`), for the height and the width of `t` -/
